@@ -14,7 +14,8 @@ import (
 type CaseC03 struct {
 	Boxes   []ref.Box
 	H, V    int64
-	Spatial bool // single-zoom API: all boxes have H == V and the target is H == V
+	Spatial bool  // single-zoom API: all boxes have H == V and the target is H == V
+	Spell   int64 `json:",omitempty"` // != 0: input IDs use non-canonical integer spellings (+1, 007, -0)
 }
 
 const maxOut = 4096
@@ -95,6 +96,7 @@ func genC03(t *rapid.T) *CaseC03 {
 		c.H = genZoom(t, "target", 0, 35)
 		c.V = c.H
 		c.H, c.V = boundTargets(c.Boxes, c.H, c.V, true)
+		c.Spell = genSpell(t)
 		return c
 	}
 	c.Boxes = genBoxList(t, 8, 6, 4)
@@ -113,6 +115,7 @@ func genC03(t *rapid.T) *CaseC03 {
 		c.V = clamp64(b.V+rapid.Int64Range(-6, 6).Draw(t, "dV"), 0, 35)
 	}
 	c.H, c.V = boundTargets(c.Boxes, c.H, c.V, false)
+	c.Spell = genSpell(t)
 	return c
 }
 
@@ -150,16 +153,16 @@ func classifyC03(c *CaseC03) (bool, []string) {
 	if c.Spatial {
 		cl = append(cl, "spatial-api")
 	}
+	if c.Spell != 0 {
+		cl = append(cl, "non-canonical-spelling")
+	}
 	return nt, uniq(cl)
 }
 
 func checkC03(c *CaseC03, fl *Fails) {
 	want := ref.ZoomSet(c.Boxes, c.H, c.V)
 	if c.Spatial {
-		ids := make([]string, len(c.Boxes))
-		for i, b := range c.Boxes {
-			ids[i] = b.Spatial()
-		}
+		ids := spelledSpatial(c.Boxes, c.Spell)
 		out, err := integrate.ChangeSpatialIdsZoom(ids, c.H)
 		if err != nil {
 			fl.Add("error", "ChangeSpatialIdsZoom(%v,%d): %v", trunc(ids, 6), c.H, err)
@@ -177,7 +180,7 @@ func checkC03(c *CaseC03, fl *Fails) {
 		}
 		return
 	}
-	ids := boxesExt(c.Boxes)
+	ids := spelledExt(c.Boxes, c.Spell)
 	out, err := integrate.ChangeExtendedSpatialIdsZoom(ids, c.H, c.V)
 	if err != nil {
 		fl.Add("error", "ChangeExtendedSpatialIdsZoom(%v,%d,%d): %v", trunc(ids, 6), c.H, c.V, err)
